@@ -337,7 +337,12 @@ where
             Value::Null
         }
     };
-    json!({ "some": decoded, "status": status, "text": String::from_utf8_lossy(&body), "req_text": req_text })
+    // what the crate's own Serialize makes of the request (the body actually sent for an order given as JSON is the
+    // scenario's JSON itself): the serialisation has to keep the order's meaning whichever way the body was built
+    let ser_text: Value = if o == "insert" {
+        catch(|| serde_json::to_string(&InsertOrderRequest { order: jura_order_of(&op["order"]) }).unwrap()).map(Value::from).unwrap_or(Value::Null)
+    } else { Value::Null };
+    json!({ "some": decoded, "status": status, "text": String::from_utf8_lossy(&body), "req_text": req_text, "ser_text": ser_text })
 }
 
 fn run_jura(sc: &Value) -> Value {
